@@ -1,0 +1,104 @@
+// Copyright (c) 2024 The http-serve developers
+//
+// Licensed under the Apache License, Version 2.0 <LICENSE-APACHE.txt or
+// http://www.apache.org/licenses/LICENSE-2.0> or the MIT license
+// <LICENSE-MIT.txt or http://opensource.org/licenses/MIT>, at your
+// option. This file may not be copied, modified, or distributed
+// except according to those terms.
+
+//! Scheduling hooks for external model checkers (feature `verif-hooks`, off by default).
+//!
+//! Supplies a drop-in replacement for the subset of `std::sync::Mutex` that `chunker.rs` uses.
+//! It reports lock acquisition and release to a per-thread callback, so a controlled scheduler
+//! can enumerate the interleavings of the real producer and consumer code. Threads which have
+//! not registered a callback get plain `std::sync::Mutex` behavior.
+
+use std::cell::RefCell;
+use std::ops::{Deref, DerefMut};
+use std::sync::{Arc, LockResult, PoisonError};
+
+/// A scheduling-relevant event. The payload identifies the mutex (its address).
+#[derive(Copy, Clone, Debug, PartialEq, Eq)]
+pub enum Event {
+    /// The calling thread is about to acquire the mutex. The callback may block.
+    BeforeLock(usize),
+
+    /// The calling thread has just released the mutex.
+    AfterUnlock(usize),
+}
+
+/// The callback type.
+pub type Hook = Arc<dyn Fn(Event) + Send + Sync>;
+
+thread_local! {
+    static HOOK: RefCell<Option<Hook>> = const { RefCell::new(None) };
+}
+
+/// Sets (or with `None`, clears) the calling thread's hook; returns the previous one.
+pub fn set_thread_hook(hook: Option<Hook>) -> Option<Hook> {
+    HOOK.with(|h| std::mem::replace(&mut *h.borrow_mut(), hook))
+}
+
+fn fire(ev: Event) {
+    // Clone out of the cell so the callback may itself call `set_thread_hook`.
+    let hook = HOOK.try_with(|h| h.borrow().clone()).ok().flatten();
+    if let Some(h) = hook {
+        h(ev);
+    }
+}
+
+/// Instrumented mutex.
+pub struct Mutex<T>(std::sync::Mutex<T>);
+
+impl<T> Mutex<T> {
+    /// As `std::sync::Mutex::new`.
+    pub fn new(t: T) -> Self {
+        Mutex(std::sync::Mutex::new(t))
+    }
+
+    fn addr(&self) -> usize {
+        self as *const Self as usize
+    }
+
+    /// As `std::sync::Mutex::lock`, firing `Event::BeforeLock` first.
+    pub fn lock(&self) -> LockResult<MutexGuard<'_, T>> {
+        let addr = self.addr();
+        fire(Event::BeforeLock(addr));
+        match self.0.lock() {
+            Ok(g) => Ok(MutexGuard {
+                inner: Some(g),
+                addr,
+            }),
+            Err(p) => Err(PoisonError::new(MutexGuard {
+                inner: Some(p.into_inner()),
+                addr,
+            })),
+        }
+    }
+}
+
+/// Guard returned by [`Mutex::lock`]; fires `Event::AfterUnlock` once the lock is released.
+pub struct MutexGuard<'a, T> {
+    inner: Option<std::sync::MutexGuard<'a, T>>,
+    addr: usize,
+}
+
+impl<T> Deref for MutexGuard<'_, T> {
+    type Target = T;
+    fn deref(&self) -> &T {
+        self.inner.as_ref().expect("guard is live")
+    }
+}
+
+impl<T> DerefMut for MutexGuard<'_, T> {
+    fn deref_mut(&mut self) -> &mut T {
+        self.inner.as_mut().expect("guard is live")
+    }
+}
+
+impl<T> Drop for MutexGuard<'_, T> {
+    fn drop(&mut self) {
+        drop(self.inner.take());
+        fire(Event::AfterUnlock(self.addr));
+    }
+}
